@@ -387,9 +387,13 @@ static void obuf_put(obuf_t * b) { (void) b; }
 
 /* ---- result path through a real context ------------------------------------------------------------------- */
 static double g_rd; static float g_rf;
+/* the last values that went through a context, re-emitted as one ASCII array: every item of an array is the text of that value */
+#define RING 6
+static double g_ring[RING]; static int g_nring;
 static scpi_result_t h_val(scpi_t * context) {
     SCPI_ResultDouble(context, g_rd);
     SCPI_ResultFloat(context, g_rf);
+    if (g_nring) SCPI_ResultArrayDouble(context, g_ring, (size_t) g_nring, SCPI_FORMAT_ASCII);
     return SCPI_RES_OK;
 }
 static const scpi_command_t c16_cmds[] = { { .pattern = "VAL?", .callback = h_val }, SCPI_CMD_LIST_END };
@@ -399,13 +403,24 @@ static void ctx_done(void) { if (g_ctx) { vh_ctx_free(g_ctx); g_ctx = NULL; } }
 #define HELPER_MODE (VH_LIB_DTOSTRE ? M_DTOSTRE : M_PRINTF)
 
 static void check_results(double v, float f, int have_f, int record) {
-    const char * out; size_t n; char * comma; char td[80], tf[80]; valref_t vr;
+    const char * out; size_t n; const char * comma; char td[80], tf[80]; valref_t vr; static char scal[200];
     if (!g_ctx) g_ctx = vh_ctx_new(c16_cmds, 32, 4, 64);
     vh_ctx_clear_capture(g_ctx);
     g_rd = v; g_rf = have_f ? f : 1.0f;
     vh_input(g_ctx, "VAL?\n", 5);
     CNT(K_RESULT_CALLS);
     out = vh_buf_cstr(&g_ctx->out); n = g_ctx->out.len;
+    if (g_nring) {
+        /* split off the array part: it must be the scalar texts of the ring values joined by commas */
+        static vh_buf_t want; int i; char t[80]; const char * c1 = n ? memchr(out, ',', n) : NULL, * c2 = c1 ? memchr(c1 + 1, ',', n - (size_t) (c1 + 1 - out)) : NULL;
+        vh_buf_reset(&want);
+        for (i = 0; i < g_nring; i++) { SCPI_DoubleToStr(g_ring[i], t, sizeof t); if (i) vh_buf_addc(&want, ','); vh_buf_adds(&want, t); }
+        vh_buf_adds(&want, "\r\n");
+        if (!c2 || (size_t) (out + n - (c2 + 1)) != want.len || memcmp(c2 + 1, want.p, want.len) != 0)
+            vh_violation("C16:ascii-array-item-differs-from-the-text-of-the-same-value", "SCPI_ResultArrayDouble(%d items, ASCII) behind two scalar results wrote \"%s\", the items formatted one by one give \"%s\"", g_nring, vh_esc(out, n), vh_esc(want.p, want.len));
+        else vh_count("result.ascii_array_items_compared", (uint64_t) g_nring);
+        if (c2 && (size_t) (c2 - out) + 3 < sizeof scal) { size_t k = (size_t) (c2 - out); memcpy(scal, out, k); scal[k] = '\r'; scal[k + 1] = '\n'; scal[k + 2] = 0; out = scal; n = k + 2; } /* the scalar part, as if the response had ended there */
+    }
     comma = n ? memchr(out, ',', n) : NULL;
     if (!comma || n < 2 || out[n - 2] != '\r' || out[n - 1] != '\n' || g_ctx->nerrs || (size_t) (comma - out) >= sizeof td || n - (size_t) (comma - out) - 3 >= sizeof tf) {
         vh_violation("C16:result-capture-unexpected", "VAL? with SCPI_ResultDouble(%.17g), SCPI_ResultFloat: response \"%s\" (%d errors) is not <text>,<text>CRLF", v, vh_esc(out, n), g_ctx->nerrs);
@@ -417,6 +432,7 @@ static void check_results(double v, float f, int have_f, int record) {
     check_text(&vr, HELPER_MODE, S_RDOUBLE, 15, td, record);
     if (HELPER_MODE == M_PRINTF) CNT(K_PF_RESULT); else CNT(K_DT_SITE_RESULT);
     if (have_f) { valref_init(&vr, (double) f); check_text(&vr, HELPER_MODE, S_RFLOAT, 6, tf, record); }
+    if (isfinite(v)) { if (g_nring < RING) g_ring[g_nring++] = v; else { memmove(g_ring, g_ring + 1, sizeof(double) * (RING - 1)); g_ring[RING - 1] = v; } }
 }
 
 /* ---- one value: every site -------------------------------------------------------------------------------- */
@@ -745,7 +761,7 @@ int main(int argc, char ** argv) {
     P10[0] = 1; for (i = 1; i < 39; i++) P10[i] = P10[i - 1] * 10;
     for (i = 0; i < K__N; i++) if (!kname[i]) { fprintf(stderr, "C16 harness: counter %d has no name\n", i); return 2; }
     g_salt = (uint64_t) (VH_LIB_DTOSTRE ? 0x5bd1e995 : 0) + (uint64_t) (VH_ASAN ? 0x27d4eb2f165667c5ULL : 0);
-    vh_require("class.random_bits"); vh_require("class.pow2_and_integer_type_limits"); vh_require("class.pow10"); vh_require("class.pow10_neighbour"); vh_require("class.carry_nines");
+    vh_require("class.random_bits"); vh_require("result.ascii_array_items_compared"); vh_require("class.pow2_and_integer_type_limits"); vh_require("class.pow10"); vh_require("class.pow10_neighbour"); vh_require("class.carry_nines");
     vh_require("class.zero_digit"); vh_require("class.boundary_double"); vh_require("class.boundary_float"); vh_require("class.exact_tie");
     vh_require("class.subnormal"); vh_require("value.subnormal"); vh_require("class.zero"); vh_require("value.nonfinite"); vh_require("class.small_int");
     vh_require("dtostre.equal_to_rounded"); vh_require("dtostre.fixed_notation"); vh_require("dtostre.exponent_notation"); vh_require("calls.p01"); vh_require("calls.p15");
